@@ -1,11 +1,12 @@
 import Pendulum.Proofs.StartOf
+import Pendulum.Proofs.StartOfSub
 /-! # C12 — start_of/end_of delimit exactly the calendar unit that contains the value
 
 Model: `Model/StartOf.lean` (`startOf`, `endOf`, `boundDate`; the repaired tree: day-and-longer units go through
 `_boundary`, weeks are computed on the calendar date). Reading of "calendar unit": the set of instants whose
 rendering in the zone has the same truncated wall label as x (`sameUnit`: equal `lo`). For second/minute/hour the
-oracle additionally demands the same UTC offset (an hour shown twice is two units); the theorems for those units
-are stated where the unit's boundary label is an ordinary wall time, and there label equality is what is proved.
+oracle additionally demands the same UTC offset (an hour shown twice is two units); the `_noedge` theorems prove
+exactly that reading, the `_partial` ones only label equality.
 
 A value x of zone `zt` is written as the rendering of an instant `ux`: wall `ux + zt.off ux`, any fold bit `f`
 (both bits are covered, so the statements hold whichever of the two instants of a repeated wall value x denotes).
@@ -13,7 +14,13 @@ A value x of zone `zt` is written as the rendering of an instant `ux`: wall `ux 
 * day, week (7 consistent configurations), month, year, decade, century, every WF zone table: full theorems under
   `zt.startOK T` / `zt.endOK T` — the boundary label `T` is ordinary, **repeated**, or the **first (last) value of a
   gap**. Not covered (F11 residue, Lean counterexample `straddle_counterexample`): `T` strictly inside a gap.
-* second, minute, hour: `_partial` — `T` must be an ordinary wall value (counterexample `subday_counterexample`).
+* second, minute, hour, every WF zone table: FULL theorems (`subday_*_noedge`: order, exact span `w - lo` / `hi - w`, same
+  label-unit and same UTC offset, neighbour microsecond in another unit, the unit is exactly the instants between
+  start_of and end_of, nominal length, idempotence, genuine local time, fold irrelevant unless the hour is shown
+  twice, the two passes of a repeated hour are two disjoint units) whenever the unit contains no edge of a
+  gap/overlap (`noEdge`: all its labels ordinary, or all repeated) and x's wall time exists. The complement is
+  finding F11b: there only the `_partial` statements (boundary label `T` ordinary ⇒ label equality) hold
+  (counterexample `subday_counterexample`).
 * fixed offsets, naive values, Dates: full theorems (`plain_*`, `date_*`). -/
 set_option linter.unusedSectionVars false
 set_option linter.unusedSimpArgs false
@@ -558,6 +565,402 @@ theorem subday_counterexample :
     res (startOf .hour 0 ⟨.named zHalf, render zHalf 36000000000, false⟩) = some (34200000000, 34200000000, false) ∧
     ¬ sameUnit .hour 0 34200000000 (render zHalf 36000000000) := by
   refine ⟨trivial, by decide, by decide, by unfold sameUnit; decide⟩
+
+/-! ### second, minute, hour: full statements whenever no edge of a gap/overlap falls inside the unit
+
+Outside finding F11b the sub-day units satisfy the whole of C12 with the oracle's reading of a sub-day unit (same
+truncated wall label AND same UTC offset — an hour shown twice is two units). `x = ⟨zt, w, f⟩` is ANY value of the
+zone whose wall time exists (`hvalid`); for a repeated `w` the fold `f` selects which of the two instants x denotes. -/
+
+/-- no edge of a gap or overlap falls inside the unit of `w`: the pair (first-pass offset, second-pass offset) is
+    the same for every wall label of the unit (so the labels are all ordinary, or all repeated, or all skipped) -/
+def noEdge (zt : Z) (u : U) (wks wke w : Int) : Prop :=
+  ∀ T, lo u wks w ≤ T → T ≤ hi u wke w → zt.woff false T = zt.woff false w ∧ zt.woff true T = zt.woff true w
+
+/-- nominal length of a sub-day unit in microseconds -/
+def nominal : U → Int
+  | .second => US
+  | .minute => MINUTE
+  | _ => HOUR
+
+/-- toy Europe/Paris autumn: at 01:00 UTC the clock goes from +2 h back to +1 h; the wall hour [02:00, 03:00) is
+    shown twice (instants [00:00, 01:00) and [01:00, 02:00) UTC) -/
+def zOver : Z := ⟨7200000000, [⟨3600000000, 3600000000⟩]⟩
+
+/-- 02:30 in `zOver` (repeated): its hour is exactly the repeated hour, so no edge lies inside it -/
+theorem zOver_noEdge : zOver.WF ∧ noEdge zOver .hour 0 0 9000000000 ∧
+    zOver.woff false 9000000000 > zOver.woff true 9000000000 := by
+  refine ⟨trivial, ?_, by decide⟩
+  intro T h1 h2
+  have e1 : lo .hour 0 9000000000 = 7200000000 := by decide
+  have e2 : hi .hour 0 9000000000 = 10799999999 := by decide
+  have e3 : zOver.woff false 9000000000 = 7200000000 := by decide
+  have e4 : zOver.woff true 9000000000 = 3600000000 := by decide
+  rw [e1] at h1; rw [e2] at h2; rw [e3, e4]
+  simp only [Z.woff, zOver, wallOff, thr]
+  constructor
+  · rw [if_pos (by simp; omega)]
+  · rw [if_neg (by simp; omega)]
+
+/-- 14:00 in `zHalf` (ordinary, after the 30-minute change): an ordinary hour -/
+theorem zHalf_noEdge : noEdge zHalf .hour 0 0 50400000000 ∧ zHalf.woff false 50400000000 = zHalf.woff true 50400000000 := by
+  refine ⟨?_, by decide⟩
+  intro T h1 h2
+  have e1 : lo .hour 0 50400000000 = 50400000000 := by decide
+  have e2 : hi .hour 0 50400000000 = 53999999999 := by decide
+  have e3 : zHalf.woff false 50400000000 = 1800000000 := by decide
+  have e4 : zHalf.woff true 50400000000 = 1800000000 := by decide
+  rw [e1] at h1; rw [e2] at h2; rw [e3, e4]
+  simp only [Z.woff, zHalf, wallOff, thr]
+  constructor
+  · rw [if_neg (by simp; omega)]
+  · rw [if_neg (by simp; omega)]
+
+/-- the length of a sub-day unit on the wall clock is its nominal length: 1 s, 1 min, 1 h (minus the last µs) -/
+theorem subday_length (u : U) (hsub : u.subDay = true) (wks wke w : Int) :
+    hi u wke w - lo u wks w = nominal u - 1 := by
+  rw [lo_eq, hi_eq]
+  cases u <;> simp only [U.subDay, Bool.false_eq_true] at hsub <;> simp only [loC, hiC, nominal] <;> omega
+
+example : hi .minute 0 9000000000 - lo .minute 0 9000000000 = 59999999 := by decide
+
+section subday
+variable (u : U) (hsub : u.subDay = true) (wks wke : Int) (hc : weekCfg wks wke) (zt : Z)
+variable (w : Int) (f : Bool)
+variable (hvalid : ¬ (zt.woff true w > zt.woff false w)) (hconst : noEdge zt u wks wke w)
+include hsub hc hvalid hconst
+
+/-- what the model returns, start side: the unit's first label with x's own fold -/
+theorem subday_startOf_named (s : V) (he : startOf u wks ⟨.named zt, w, f⟩ = .ok s) :
+    s = ⟨.named zt, lo u wks w, f⟩ ∧ inRange (lo u wks w) = true := by
+  have hlo := (unit u wks wke hc).lo_le w
+  have hhi := (unit u wks wke hc).le_hi w
+  rw [unit_lo] at hlo; rw [unit_hi] at hhi
+  obtain ⟨c0, c1⟩ := hconst (lo u wks w) (Int.le_refl _) (by omega)
+  have hv : ¬ zt.woff true (lo u wks w) > zt.woff false (lo u wks w) := by rw [c0, c1]; exact hvalid
+  unfold startOf bound at he
+  simp only [hsub, if_true, Bool.false_eq_true, if_false] at he
+  by_cases hr : inRange (lo u wks w) = true
+  · simp only [hr, not_true_eq_false, if_false] at he
+    rw [create_valid zt _ f hv, if_pos hr] at he
+    injection he with he; exact ⟨he.symm, hr⟩
+  · simp [hr] at he
+
+example : res (startOf .hour 0 ⟨.named zOver, 9000000000, false⟩) = some (7200000000, 0, false) := by decide
+
+/-- what the model returns, end side: the unit's last label with x's own fold -/
+theorem subday_endOf_named (s : V) (he : endOf u wke ⟨.named zt, w, f⟩ = .ok s) :
+    s = ⟨.named zt, hi u wke w, f⟩ ∧ inRange (hi u wke w) = true := by
+  have hlo := (unit u wks wke hc).lo_le w
+  have hhi := (unit u wks wke hc).le_hi w
+  rw [unit_lo] at hlo; rw [unit_hi] at hhi
+  obtain ⟨c0, c1⟩ := hconst (hi u wke w) (by omega) (Int.le_refl _)
+  have hv : ¬ zt.woff true (hi u wke w) > zt.woff false (hi u wke w) := by rw [c0, c1]; exact hvalid
+  unfold endOf bound at he
+  simp only [hsub, if_true, Bool.false_eq_true, if_false] at he
+  by_cases hr : inRange (hi u wke w) = true
+  · simp only [hr, not_true_eq_false, if_false] at he
+    rw [create_valid zt _ f hv, if_pos hr] at he
+    injection he with he; exact ⟨he.symm, hr⟩
+  · simp [hr] at he
+
+example : res (endOf .hour 0 ⟨.named zOver, 9000000000, true⟩) = some (10799999999, 7199999999, true) := by decide
+
+/-- C12 for second/minute/hour, start side, FULL: start_of(u) is not after x, lies `w - lo` before it, is in the same
+    unit with the same UTC offset (same zone, x's own fold: it stays in x's pass of a repeated hour), the microsecond
+    before it is in another unit (another label-unit or another offset), start_of is idempotent and the result is a
+    genuine local time of the zone -/
+theorem subday_startOf_noedge (h : zt.WF) (s : V) (he : startOf u wks ⟨.named zt, w, f⟩ = .ok s) :
+    s.instant ≤ (⟨.named zt, w, f⟩ : V).instant ∧
+    s.instant = (⟨.named zt, w, f⟩ : V).instant - (w - lo u wks w) ∧
+    sameUnit u wks s.w w ∧ s.offset = (⟨.named zt, w, f⟩ : V).offset ∧ s.fold = f ∧
+    ¬ (sameUnit u wks (render zt (s.instant - 1)) w ∧ zt.off (s.instant - 1) = (⟨.named zt, w, f⟩ : V).offset) ∧
+    startOf u wks s = .ok s ∧ s.w = render zt s.instant := by
+  have hlo := (unit u wks wke hc).lo_le w
+  have hhi := (unit u wks wke hc).le_hi w
+  have hll := (unit u wks wke hc).lo_lo w
+  have hl1 := (unit u wks wke hc).lo_le (lo u wks w - 1)
+  rw [unit_lo] at hlo hll hl1; rw [unit_hi] at hhi
+  obtain ⟨c0, c1⟩ := hconst (lo u wks w) (Int.le_refl _) (by omega)
+  have cf : zt.woff f (lo u wks w) = zt.woff f w := by cases f <;> assumption
+  have hv : ¬ zt.woff true (lo u wks w) > zt.woff false (lo u wks w) := by rw [c0, c1]; exact hvalid
+  obtain ⟨es, hr⟩ := subday_startOf_named u hsub wks wke hc zt w f hvalid hconst s he
+  subst es
+  simp only [named_instant, named_offset, cf]
+  refine ⟨by omega, by omega, hll, trivial, trivial, ?_, ?_, ?_⟩
+  · rintro ⟨hsame, hoff⟩
+    unfold sameUnit render at hsame
+    rw [hoff] at hsame
+    have e : lo u wks w - zt.woff f w - 1 + zt.woff f w = lo u wks w - 1 := by omega
+    rw [e] at hsame
+    omega
+  · unfold startOf bound
+    simp only [hsub, if_true, Bool.false_eq_true, if_false, hll, hr, not_true_eq_false]
+    rw [create_valid zt _ f hv, if_pos hr]
+  · have := valid_off zt h (lo u wks w) f hv
+    rw [cf] at this
+    unfold render; rw [this]; omega
+
+example : zOver.WF ∧ noEdge zOver .hour 0 0 9000000000 ∧ ¬ (zOver.woff true 9000000000 > zOver.woff false 9000000000) ∧
+    res (startOf .hour 0 ⟨.named zOver, 9000000000, true⟩) = some (7200000000, 3600000000, true) :=
+  ⟨zOver_noEdge.1, zOver_noEdge.2.1, by decide, by decide⟩
+
+/-- C12 for second/minute/hour, end side, FULL (mirror image of `subday_startOf_noedge`) -/
+theorem subday_endOf_noedge (h : zt.WF) (s : V) (he : endOf u wke ⟨.named zt, w, f⟩ = .ok s) :
+    (⟨.named zt, w, f⟩ : V).instant ≤ s.instant ∧
+    s.instant = (⟨.named zt, w, f⟩ : V).instant + (hi u wke w - w) ∧
+    sameUnit u wks s.w w ∧ s.offset = (⟨.named zt, w, f⟩ : V).offset ∧ s.fold = f ∧
+    ¬ (sameUnit u wks (render zt (s.instant + 1)) w ∧ zt.off (s.instant + 1) = (⟨.named zt, w, f⟩ : V).offset) ∧
+    endOf u wke s = .ok s ∧ s.w = render zt s.instant := by
+  have hlo := (unit u wks wke hc).lo_le w
+  have hhi := (unit u wks wke hc).le_hi w
+  have hhh := (unit u wks wke hc).hi_hi w
+  have hlh := (unit u wks wke hc).lo_hi w
+  have e1 := (unit u wks wke hc).hi_lo (hi u wke w + 1)
+  have e2 := (unit u wks wke hc).hi_lo w
+  have hh1 := (unit u wks wke hc).le_hi (hi u wke w + 1)
+  rw [unit_lo] at hlo; rw [unit_hi] at hhi hhh hh1; rw [unit_lo, unit_hi] at hlh e1 e2
+  obtain ⟨c0, c1⟩ := hconst (hi u wke w) (by omega) (Int.le_refl _)
+  have cf : zt.woff f (hi u wke w) = zt.woff f w := by cases f <;> assumption
+  have hv : ¬ zt.woff true (hi u wke w) > zt.woff false (hi u wke w) := by rw [c0, c1]; exact hvalid
+  obtain ⟨es, hr⟩ := subday_endOf_named u hsub wks wke hc zt w f hvalid hconst s he
+  subst es
+  simp only [named_instant, named_offset, cf]
+  refine ⟨by omega, by omega, hlh, trivial, trivial, ?_, ?_, ?_⟩
+  · rintro ⟨hsame, hoff⟩
+    unfold sameUnit render at hsame
+    rw [hoff] at hsame
+    have e : hi u wke w - zt.woff f w + 1 + zt.woff f w = hi u wke w + 1 := by omega
+    rw [e] at hsame
+    rw [hsame, e2] at e1
+    omega
+  · unfold endOf bound
+    simp only [hsub, if_true, Bool.false_eq_true, if_false, hhh, hr, not_true_eq_false]
+    rw [create_valid zt _ f hv, if_pos hr]
+  · have := valid_off zt h (hi u wke w) f hv
+    rw [cf] at this
+    unfold render; rw [this]; omega
+
+example : res (endOf .hour 0 ⟨.named zOver, 9000000000, false⟩) = some (10799999999, 3599999999, false) := by decide
+
+/-- start_of(u) ≤ x ≤ end_of(u) as instants, both carry x's UTC offset, and the unit has its nominal length as a
+    span of instants (also inside a repeated hour: each pass is a whole hour of its own) -/
+theorem subday_start_le_end_noedge (s e : V) (hs : startOf u wks ⟨.named zt, w, f⟩ = .ok s)
+    (hE : endOf u wke ⟨.named zt, w, f⟩ = .ok e) :
+    s.instant ≤ (⟨.named zt, w, f⟩ : V).instant ∧ (⟨.named zt, w, f⟩ : V).instant ≤ e.instant ∧
+    e.instant - s.instant = hi u wke w - lo u wks w ∧ e.instant - s.instant = nominal u - 1 ∧
+    s.offset = e.offset := by
+  have hlo := (unit u wks wke hc).lo_le w
+  have hhi := (unit u wks wke hc).le_hi w
+  rw [unit_lo] at hlo; rw [unit_hi] at hhi
+  have hlen := subday_length u hsub wks wke w
+  obtain ⟨a0, a1⟩ := hconst (lo u wks w) (Int.le_refl _) (by omega)
+  obtain ⟨b0, b1⟩ := hconst (hi u wke w) (by omega) (Int.le_refl _)
+  have ca : zt.woff f (lo u wks w) = zt.woff f w := by cases f <;> assumption
+  have cb : zt.woff f (hi u wke w) = zt.woff f w := by cases f <;> assumption
+  obtain ⟨es, _⟩ := subday_startOf_named u hsub wks wke hc zt w f hvalid hconst s hs
+  obtain ⟨ee, _⟩ := subday_endOf_named u hsub wks wke hc zt w f hvalid hconst e hE
+  subst es; subst ee
+  simp only [named_instant, named_offset, ca, cb]
+  refine ⟨by omega, by omega, by omega, by omega, trivial⟩
+
+example : res (startOf .hour 0 ⟨.named zHalf, 52000000000, false⟩) = some (50400000000, 48600000000, false) ∧
+    res (endOf .hour 0 ⟨.named zHalf, 52000000000, false⟩) = some (53999999999, 52199999999, false) := by decide
+
+/-- start_of/end_of delimit EXACTLY the unit: an instant lies in x's unit (its rendering has x's truncated label
+    and its UTC offset is x's) iff it lies between start_of(u) and end_of(u) -/
+theorem subday_unit_exact_noedge (h : zt.WF) (s e : V) (hs : startOf u wks ⟨.named zt, w, f⟩ = .ok s)
+    (hE : endOf u wke ⟨.named zt, w, f⟩ = .ok e) (p : Int) :
+    (sameUnit u wks (render zt p) w ∧ zt.off p = (⟨.named zt, w, f⟩ : V).offset) ↔
+      (s.instant ≤ p ∧ p ≤ e.instant) := by
+  have hlo := (unit u wks wke hc).lo_le w
+  have hhi := (unit u wks wke hc).le_hi w
+  rw [unit_lo] at hlo; rw [unit_hi] at hhi
+  obtain ⟨a0, a1⟩ := hconst (lo u wks w) (Int.le_refl _) (by omega)
+  obtain ⟨b0, b1⟩ := hconst (hi u wke w) (by omega) (Int.le_refl _)
+  have ca : zt.woff f (lo u wks w) = zt.woff f w := by cases f <;> assumption
+  have cb : zt.woff f (hi u wke w) = zt.woff f w := by cases f <;> assumption
+  obtain ⟨es, _⟩ := subday_startOf_named u hsub wks wke hc zt w f hvalid hconst s hs
+  obtain ⟨ee, _⟩ := subday_endOf_named u hsub wks wke hc zt w f hvalid hconst e hE
+  subst es; subst ee
+  simp only [named_instant, named_offset, ca, cb]
+  constructor
+  · rintro ⟨hsame, hoff⟩
+    unfold sameUnit render at hsame
+    rw [hoff] at hsame
+    have g1 := (unit u wks wke hc).lo_le (p + zt.woff f w)
+    have g2 := (unit u wks wke hc).le_hi (p + zt.woff f w)
+    have g3 := (unit u wks wke hc).hi_lo (p + zt.woff f w)
+    have g4 := (unit u wks wke hc).hi_lo w
+    rw [unit_lo] at g1; rw [unit_hi] at g2; rw [unit_lo, unit_hi] at g3 g4
+    rw [hsame, g4] at g3
+    omega
+  · rintro ⟨p1, p2⟩
+    obtain ⟨t0, t1⟩ := hconst (p + zt.woff f w) (by omega) (by omega)
+    have tf : zt.woff f (p + zt.woff f w) = zt.woff f w := by cases f <;> assumption
+    have tv : ¬ zt.woff true (p + zt.woff f w) > zt.woff false (p + zt.woff f w) := by rw [t0, t1]; exact hvalid
+    have ho := valid_off zt h (p + zt.woff f w) f tv
+    rw [tf] at ho
+    have e : p + zt.woff f w - zt.woff f w = p := by omega
+    rw [e] at ho
+    refine ⟨?_, ho⟩
+    unfold sameUnit render; rw [ho]
+    exact ((unit u wks wke hc).block (p + zt.woff f w) w (by rw [unit_lo]; omega) (by rw [unit_hi]; omega)).1
+
+-- both sides true (an instant of the second pass), both sides false (an instant of the first pass) for f = true
+example : sameUnit .hour 0 (render zOver 5000000000) 9000000000 ∧ zOver.off 5000000000 = 3600000000 ∧
+    ¬ zOver.off 1000000000 = 3600000000 := by unfold sameUnit; decide
+
+/-- the result depends only on (zone, instant): when x's wall time is not repeated, its fold bit is irrelevant -/
+theorem subday_origin_noedge (hnr : zt.woff false w = zt.woff true w) (f' : Bool) (s : V) :
+    (startOf u wks ⟨.named zt, w, f⟩ = .ok s →
+      ∃ s', startOf u wks ⟨.named zt, w, f'⟩ = .ok s' ∧ s'.w = s.w ∧ s'.instant = s.instant ∧ s'.offset = s.offset) ∧
+    (endOf u wke ⟨.named zt, w, f⟩ = .ok s →
+      ∃ s', endOf u wke ⟨.named zt, w, f'⟩ = .ok s' ∧ s'.w = s.w ∧ s'.instant = s.instant ∧ s'.offset = s.offset) := by
+  have hlo := (unit u wks wke hc).lo_le w
+  have hhi := (unit u wks wke hc).le_hi w
+  rw [unit_lo] at hlo; rw [unit_hi] at hhi
+  constructor
+  · intro he
+    obtain ⟨c0, c1⟩ := hconst (lo u wks w) (Int.le_refl _) (by omega)
+    have hv : ¬ zt.woff true (lo u wks w) > zt.woff false (lo u wks w) := by rw [c0, c1]; exact hvalid
+    obtain ⟨es, hr⟩ := subday_startOf_named u hsub wks wke hc zt w f hvalid hconst s he
+    subst es
+    refine ⟨⟨.named zt, lo u wks w, f'⟩, ?_, rfl, ?_, ?_⟩
+    · unfold startOf bound
+      simp only [hsub, if_true, Bool.false_eq_true, if_false, hr, not_true_eq_false]
+      rw [create_valid zt _ f' hv, if_pos hr]
+    · simp only [named_instant]; cases f <;> cases f' <;> omega
+    · simp only [named_offset]; cases f <;> cases f' <;> omega
+  · intro he
+    obtain ⟨c0, c1⟩ := hconst (hi u wke w) (by omega) (Int.le_refl _)
+    have hv : ¬ zt.woff true (hi u wke w) > zt.woff false (hi u wke w) := by rw [c0, c1]; exact hvalid
+    obtain ⟨es, hr⟩ := subday_endOf_named u hsub wks wke hc zt w f hvalid hconst s he
+    subst es
+    refine ⟨⟨.named zt, hi u wke w, f'⟩, ?_, rfl, ?_, ?_⟩
+    · unfold endOf bound
+      simp only [hsub, if_true, Bool.false_eq_true, if_false, hr, not_true_eq_false]
+      rw [create_valid zt _ f' hv, if_pos hr]
+    · simp only [named_instant]; cases f <;> cases f' <;> omega
+    · simp only [named_offset]; cases f <;> cases f' <;> omega
+
+example : noEdge zHalf .hour 0 0 50400000000 ∧ zHalf.woff false 50400000000 = zHalf.woff true 50400000000 ∧
+    res (startOf .hour 0 ⟨.named zHalf, 50400000000, true⟩) = some (50400000000, 48600000000, true) ∧
+    res (startOf .hour 0 ⟨.named zHalf, 50400000000, false⟩) = some (50400000000, 48600000000, false) :=
+  ⟨zHalf_noEdge.1, zHalf_noEdge.2, by decide, by decide⟩
+
+end subday
+
+section passes
+variable (u : U) (hsub : u.subDay = true) (wks wke : Int) (hc : weekCfg wks wke) (zt : Z) (w : Int)
+variable (hrep : zt.woff false w > zt.woff true w) (hconst : noEdge zt u wks wke w)
+include hsub hc hrep hconst
+
+/-- a repeated wall time: the two folds of x give the two distinct units — the same labels, each with its own
+    offset, the second-pass results later by exactly the length of the overlap -/
+theorem subday_two_passes_noedge (s0 s1 e0 e1 : V)
+    (h0 : startOf u wks ⟨.named zt, w, false⟩ = .ok s0) (h1 : startOf u wks ⟨.named zt, w, true⟩ = .ok s1)
+    (g0 : endOf u wke ⟨.named zt, w, false⟩ = .ok e0) (g1 : endOf u wke ⟨.named zt, w, true⟩ = .ok e1) :
+    s0.w = s1.w ∧ e0.w = e1.w ∧ s0.fold = false ∧ s1.fold = true ∧ e0.fold = false ∧ e1.fold = true ∧
+    s0.offset = zt.woff false w ∧ e0.offset = zt.woff false w ∧
+    s1.offset = zt.woff true w ∧ e1.offset = zt.woff true w ∧
+    s1.instant - s0.instant = zt.woff false w - zt.woff true w ∧
+    e1.instant - e0.instant = zt.woff false w - zt.woff true w := by
+  have hlo := (unit u wks wke hc).lo_le w
+  have hhi := (unit u wks wke hc).le_hi w
+  rw [unit_lo] at hlo; rw [unit_hi] at hhi
+  have hvalid : ¬ (zt.woff true w > zt.woff false w) := by omega
+  obtain ⟨a0, a1⟩ := hconst (lo u wks w) (Int.le_refl _) (by omega)
+  obtain ⟨b0, b1⟩ := hconst (hi u wke w) (by omega) (Int.le_refl _)
+  obtain ⟨x0, _⟩ := subday_startOf_named u hsub wks wke hc zt w false hvalid hconst s0 h0
+  obtain ⟨x1, _⟩ := subday_startOf_named u hsub wks wke hc zt w true hvalid hconst s1 h1
+  obtain ⟨y0, _⟩ := subday_endOf_named u hsub wks wke hc zt w false hvalid hconst e0 g0
+  obtain ⟨y1, _⟩ := subday_endOf_named u hsub wks wke hc zt w true hvalid hconst e1 g1
+  subst x0; subst x1; subst y0; subst y1
+  simp only [named_instant, named_offset, a0, a1, b0, b1]
+  refine ⟨?_, ?_, ?_, ?_, ?_, ?_, ?_, ?_, ?_, ?_, ?_, ?_⟩ <;> first | trivial | omega
+
+example : noEdge zOver .hour 0 0 9000000000 ∧ zOver.woff false 9000000000 > zOver.woff true 9000000000 ∧
+    res (endOf .hour 0 ⟨.named zOver, 9000000000, true⟩) = some (10799999999, 7199999999, true) :=
+  ⟨zOver_noEdge.2.1, zOver_noEdge.2.2, by decide⟩
+
+/-- the two passes of a repeated unit are disjoint as sets of instants: the first pass ends before the second
+    begins -/
+theorem subday_passes_disjoint_noedge (h : zt.WF) (e0 s1 : V)
+    (g0 : endOf u wke ⟨.named zt, w, false⟩ = .ok e0) (h1 : startOf u wks ⟨.named zt, w, true⟩ = .ok s1) :
+    e0.instant < s1.instant := by
+  have hlo := (unit u wks wke hc).lo_le w
+  have hhi := (unit u wks wke hc).le_hi w
+  rw [unit_lo] at hlo; rw [unit_hi] at hhi
+  have hvalid : ¬ (zt.woff true w > zt.woff false w) := by omega
+  obtain ⟨a0, a1⟩ := hconst (lo u wks w) (Int.le_refl _) (by omega)
+  obtain ⟨b0, b1⟩ := hconst (hi u wke w) (by omega) (Int.le_refl _)
+  obtain ⟨x1, _⟩ := subday_startOf_named u hsub wks wke hc zt w true hvalid hconst s1 h1
+  obtain ⟨y0, _⟩ := subday_endOf_named u hsub wks wke hc zt w false hvalid hconst e0 g0
+  subst x1; subst y0
+  simp only [named_instant, a1, b0]
+  apply Classical.byContradiction; intro c
+  -- otherwise the last instant of the first pass would also be an instant of the second pass
+  obtain ⟨t0, t1⟩ := hconst (hi u wke w - (zt.woff false w - zt.woff true w)) (by omega) (by omega)
+  have tv : ¬ zt.woff true (hi u wke w - (zt.woff false w - zt.woff true w)) >
+      zt.woff false (hi u wke w - (zt.woff false w - zt.woff true w)) := by rw [t0, t1]; exact hvalid
+  have hv : ¬ zt.woff true (hi u wke w) > zt.woff false (hi u wke w) := by rw [b0, b1]; exact hvalid
+  have o1 := valid_off zt h (hi u wke w) false hv
+  have o2 := valid_off zt h (hi u wke w - (zt.woff false w - zt.woff true w)) true tv
+  rw [b0] at o1; rw [t1] at o2
+  have e : hi u wke w - (zt.woff false w - zt.woff true w) - zt.woff true w = hi u wke w - zt.woff false w := by omega
+  rw [e] at o2
+  omega
+
+example : res (startOf .hour 0 ⟨.named zOver, 9000000000, false⟩) = some (7200000000, 0, false) ∧
+    res (startOf .hour 0 ⟨.named zOver, 9000000000, true⟩) = some (7200000000, 3600000000, true) ∧
+    res (endOf .hour 0 ⟨.named zOver, 9000000000, false⟩) = some (10799999999, 3599999999, false) := by decide
+
+end passes
+
+/-! ### `noEdge` is the right hypothesis -/
+
+/-- a unit all of whose wall labels are ordinary contains no edge -/
+theorem noEdge_of_unique_all (u : U) (wks wke : Int) (hc : weekCfg wks wke) (zt : Z) (h : zt.WF) (w : Int)
+    (hall : ∀ T, lo u wks w ≤ T → T ≤ hi u wke w → zt.unique T) : noEdge zt u wks wke w := by
+  have hlo := (unit u wks wke hc).lo_le w
+  have hhi := (unit u wks wke hc).le_hi w
+  rw [unit_lo] at hlo; rw [unit_hi] at hhi
+  exact const_of_unique_range zt h _ _ w hlo hhi hall
+
+example : zHalf.unique 50400000000 ∧ zHalf.unique 53999999999 := by decide
+
+/-- conversely, a unit of an existing wall time without an edge consists of ordinary labels only or of repeated
+    labels only (an hour shown twice), and `noEdge` is the same for every label of the unit -/
+theorem noEdge_kind (u : U) (wks wke : Int) (hc : weekCfg wks wke) (zt : Z) (h : zt.WF) (w : Int)
+    (hvalid : ¬ (zt.woff true w > zt.woff false w)) (hconst : noEdge zt u wks wke w) :
+    ((∀ T, lo u wks w ≤ T → T ≤ hi u wke w → zt.unique T) ∨
+     (∀ T, lo u wks w ≤ T → T ≤ hi u wke w → zt.woff false T > zt.woff true T)) ∧
+    (∀ v, lo u wks w ≤ v → v ≤ hi u wke w → noEdge zt u wks wke v) := by
+  constructor
+  · by_cases c : zt.woff false w = zt.woff true w
+    · left; intro T h1 h2
+      obtain ⟨c0, c1⟩ := hconst T h1 h2
+      exact ⟨not_skipped_of_le zt h T (by rw [c0, c1]; exact hvalid), by rw [c0, c1]; exact c⟩
+    · right; intro T h1 h2
+      obtain ⟨c0, c1⟩ := hconst T h1 h2
+      rw [c0, c1]; omega
+  · intro v h1 h2 T t1 t2
+    obtain ⟨bl, bh⟩ := (unit u wks wke hc).block v w (by rw [unit_lo]; exact h1) (by rw [unit_hi]; exact h2)
+    rw [unit_lo] at bl; rw [unit_hi] at bh
+    rw [bl] at t1; rw [bh] at t2
+    obtain ⟨c0, c1⟩ := hconst T t1 t2
+    obtain ⟨d0, d1⟩ := hconst v h1 h2
+    exact ⟨by rw [c0, d0], by rw [c1, d1]⟩
+
+example : zOver.woff false 7200000000 > zOver.woff true 7200000000 ∧
+    zOver.woff false 10799999999 > zOver.woff true 10799999999 ∧ zOver.unique 10800000000 := by decide
+
+/-- the excluded region is F11b: in `zHalf` the hour of 10:30 contains the end of the gap [10:00, 10:30) -/
+example : ¬ noEdge zHalf .hour 0 0 (render zHalf 36000000000) := by
+  intro hn
+  have := (hn 36000000000 (by decide) (by decide)).1
+  revert this; decide
 
 /-! ### non-vacuity: the hypotheses are satisfiable on the interesting inputs -/
 
